@@ -15,7 +15,7 @@ import (
 	"verifharness/internal/val"
 )
 
-var c16Floor = []string{"tpl.echo", "tpl.where", "tpl.in", "tpl.between", "tpl.func", "tpl.limit", "tpl.adjacent", "tpl.repeat", "tpl.protected.single", "tpl.protected.double", "tpl.protected.backtick", "tpl.protected.comment",
+var c16Floor = []string{"tpl.echo", "tpl.where", "tpl.in", "tpl.between", "tpl.func", "tpl.limit", "tpl.adjacent", "tpl.repeat", "tpl.protected.single", "tpl.protected.double", "tpl.protected.backtick", "tpl.protected.comment", "tpl.pg-ident", "comment.tab", "comment.backslash-eol",
 	"arg.string", "arg.int", "arg.negint", "arg.float", "arg.bool", "arg.nil", "str.quote", "str.backslash", "str.comment", "str.control", "str.keyword", "str.multibyte", "err.missing", "err.unused", "err.dollar0", "prepared", "concurrent"}
 
 func init() {
@@ -228,7 +228,7 @@ func c16Run(c *fw.Case) {
 		force = c16Floor[c.Idx%len(c16Floor)]
 	}
 	var feats []string
-	kinds := []string{"tpl.echo", "tpl.where", "tpl.in", "tpl.between", "tpl.func", "tpl.limit", "tpl.adjacent", "tpl.repeat", "tpl.protected.single", "tpl.protected.double", "tpl.protected.backtick", "tpl.protected.comment"}
+	kinds := []string{"tpl.echo", "tpl.where", "tpl.in", "tpl.between", "tpl.func", "tpl.limit", "tpl.adjacent", "tpl.repeat", "tpl.protected.single", "tpl.protected.double", "tpl.protected.backtick", "tpl.protected.comment", "tpl.pg-ident"}
 	kind := gen.Pick(c.R, kinds)
 	if strings.HasPrefix(force, "tpl.") {
 		kind = force
@@ -306,9 +306,31 @@ func c16Run(c *fw.Case) {
 		t.pieces, t.slots = []string{"SELECT ", " AS `v$2` FROM dual"}, []int{A("")}
 	case "tpl.protected.comment":
 		t.pieces, t.slots = []string{"SELECT /* $2 ' */ ", " AS v FROM dual -- $3 '"}, []int{A("")}
-		if c.Chance(0.5) {
+		switch c.Intn(5) {
+		case 0:
 			t.pieces = []string{"SELECT ", " AS v -- $2 \" \n FROM dual /* $9 */"}
+		case 1:
+			// the comment introducer followed by a TAB / CR / nothing at all
+			t.pieces = []string{"SELECT ", " AS v\n--\tWHERE x = $2 '\nFROM dual --\t$3"}
+			feats = append(feats, "comment.tab")
+		case 2:
+			t.pieces = []string{"SELECT ", " AS v --\r$2\n FROM dual --"}
+			feats = append(feats, "comment.tab")
+		case 3:
+			// a backslash at the end of a line comment hides nothing: the
+			// placeholder on the next line is a placeholder
+			t.pieces, t.slots = []string{"SELECT ", " AS v -- $9 \\\n, ", " AS w FROM dual"}, []int{0, A("")}
+			feats = append(feats, "comment.backslash-eol")
 		}
+	case "tpl.pg-ident":
+		// evaluated under PostgresEscapingDialect: double-quoted identifiers of the
+		// template stay identifiers whatever the arguments hold
+		a, b := A("string"), A("string")
+		if c.Chance(0.6) {
+			t.args[a] = gen.Pick(c.R, []string{"C:\\tmp\\", "\\", "it\\'", "a\\\\", "x\\"}) + ""
+			t.args[b] = gen.Pick(c.R, []string{"say \"hi\"", "\"", "a \"quoted\" word", "`\"`"})
+		}
+		t.pieces, t.slots = []string{"SELECT ", " AS a, ", " AS b, \"s1\" AS n, \"rid\" FROM t"}, []int{a, b}
 	}
 	tpl := t.text()
 	c.Feature(feats...)
@@ -406,6 +428,9 @@ func c16Run(c *fw.Case) {
 		switch kind {
 		case "tpl.echo", "tpl.protected.comment":
 			expect["v"] = exact(t.args[0])
+			if len(t.args) == 2 {
+				expect["w"] = exact(t.args[1])
+			}
 		case "tpl.repeat":
 			expect["a"], expect["b"], expect["c"] = exact(t.args[0]), exact(t.args[1]), exact(t.args[0])
 		case "tpl.protected.single":
@@ -418,6 +443,23 @@ func c16Run(c *fw.Case) {
 		det["expected"] = val.Show(expect)
 		if !val.Equal(row, expect) {
 			c.Violate("echo", fmt.Sprintf("echo returned %s, expected %s", short(val.Canon(row), 200), short(val.Canon(expect), 200)), det)
+			return
+		}
+	case "tpl.pg-ident":
+		o := Run(doc, out, genql.PostgresEscapingDialect())
+		c.Evals(1)
+		det["observed"], det["doc"] = o.Describe(), doc
+		if !o.OK() {
+			c.Violate("exec", fmt.Sprintf("the sanitized query failed under PostgresEscapingDialect: %v", o.Describe()), det)
+			return
+		}
+		var want []any
+		for _, r := range tbl.Rows {
+			want = append(want, map[string]any{"a": t.args[0], "b": t.args[1], "n": r["s1"], "rid": r["rid"]})
+		}
+		det["expected"] = val.Show(want)
+		if !(len(want) == 0 && len(o.Rows) == 0) && !val.SameSeq(o.Rows, want) {
+			c.Violate("echo", fmt.Sprintf("under PostgresEscapingDialect the query returned %s, expected %s", short(val.Canon(o.Rows), 300), short(val.Canon(want), 300)), det)
 			return
 		}
 	case "tpl.where":
